@@ -27,6 +27,7 @@ func c08Correspondence(c *hx.Ctx) {
 	c08CorrJLS(c)
 	c08CorrJ2K(c)
 	c08CorrMCT(c)
+	c09CorrPktBody(c)
 }
 
 func c08N(c *hx.Ctx, quick, thorough int) int {
